@@ -678,7 +678,14 @@ def main(tier):
         if v.pop("_pending", False):
             v["no_failing_input_found"] = not any(nm in " ".join(v.get("asn1", [])) for nm in oracle_bad)
     # only the first 20 violations are written out: those for which a failing input was found first
-    run.violations.sort(key=lambda v: bool(v.get("no_failing_input_found")))
+    # and every kind represented (round-robin over the kinds)
+    seen_kind = {}
+    for v in run.violations:
+        v["_rank"] = seen_kind.get(v["kind"], 0)
+        seen_kind[v["kind"]] = v["_rank"] + 1
+    run.violations.sort(key=lambda v: (bool(v.get("no_failing_input_found")), v["_rank"]))
+    for v in run.violations:
+        del v["_rank"]
     tb = ["Coq 8.16.1 kernel + vm_compute (refuted witnesses only)",
           "axioms under Print Assumptions: " + (", ".join(sorted(axioms)) or "none (Closed under the global context)"),
           "extraction: ExtrOcamlBasic only; OCaml 4.13.1; ocaml/drv_c09.ml (tree parser, range printer)",
